@@ -664,10 +664,36 @@ def c11(ck):
                 return True
         return False
     ck.extra["selftest_corrupted_trace_rejections"] = corrupt_selftest(ck, "TraceEnv", trace, mut)
+    # "seen either entirely or not at all": writers redefine globals while readers look them up (nested scopes,
+    # closures, macro expansions, futures); TraceRW.tla validates the log as a linearizable single-writer register
+    rw = os.path.join(ck.scratch, "globals.ndjson")
+    ck.harness(["globals", "-n", str(80 if q else 1500), "-seed", str(ck.seed), "-out", rw], timeout=1200)
+    rej, t = validate_trace(ck, "TraceRW", rw, timeout=1800)
+    rwrows = [json.loads(l) for l in open(rw)]
+    ck.traces_validated += sum(1 for r_ in rwrows if r_["ev"] == "begin")
+    ck.extra["global_reads_validated"] = sum(1 for r_ in rwrows if r_["ev"] == "re")
+    for line in rej[:20]:
+        idx, _, reason = line.partition(" ")
+        i = int(idx)
+        j = max(k for k in range(i) if rwrows[k]["ev"] == "begin")
+        via = rwrows[i - 1].get("via", "")
+        ck.report("definition-visibility:%s" % via, reason, {"case": {"kind": "globals-trace", "events": rwrows[j:i]}})
+    def mutrw(rows_):
+        n = 0
+        for r_ in rows_:
+            if r_["ev"] == "re" and r_["val"] > 3:
+                n += 1
+                if n == 5:
+                    r_["val"] -= 3
+                    return True
+        return False
+    ck.extra["selftest_corrupted_globals_trace_rejections"] = corrupt_selftest(ck, "TraceRW", rw, mutrw)
     # race detector
     racelog = os.path.join(ck.scratch, "race")
     ck.harness(["replay", "-repeat", "2"], r.cases[:: (3 if q else 1)], race=True, timeout=3000,
                env={"GORACE": "log_path=%s halt_on_error=0 exitcode=0" % racelog})
+    ck.harness(["globals", "-n", str(40 if q else 400), "-seed", str(ck.seed + 7), "-out", os.path.join(ck.scratch, "globals-race.ndjson")],
+               race=True, timeout=3000, env={"GORACE": "log_path=%s halt_on_error=0 exitcode=0" % racelog})
     races = parse_race_reports(glob.glob(racelog + "*"))
     seen = set()
     for key, text in races:
